@@ -66,7 +66,9 @@ fn topic_pool(w: &World) -> Vec<String> {
 
 fn gen_filter(rng: &mut Rng, w: &World) -> Filter {
     let h = w.height.unwrap_or(0);
-    let hx = |n: u64| format!("0x{:x}", n);
+    // heights are given as hex quantities or, in a fifth of the filters, as decimal strings (the API takes both)
+    let decimal = rng.chance(1, 5);
+    let hx = |n: u64| if decimal { n.to_string() } else { format!("0x{:x}", n) };
     let (from, to, from_n, to_n) = match rng.below(12) {
         0 => (None, None, h, h),
         1 => (Some("latest".to_string()), None, h, h),
